@@ -8,6 +8,18 @@ import facts
 from runner import Check
 
 PROPS = {
+    "C11": ("rules_c11", "other",
+            "Decided (structural clauses): Dirichlet::new verdict on the cell partition incl. subnormal/infinite entries; the method switch "
+            "(FromBeta iff all entries <= 0.1, boundary included); length algebra with exact lengths n in {2,3,6}: sample_len() = n in both "
+            "representations, sample() returns exactly n components, the buffer-length assertion and output[len-1] are discharged; the "
+            "suffix-sum recurrence reads csum[j+1] and alpha[j+1] for the entry written at j, n-1 entries; sample() = one sample_to_slice "
+            "on a sample_len() buffer. Not decided: components in [0,1], sum to 1 within ulps, Beta marginals (numerical)."),
+    "C08": ("rules_c08", "other",
+            "Decided: the validation clause of WeightedAliasIndex::new — InvalidInput on an empty vector, InvalidWeight on a NaN, negative or "
+            "greater-than-MAX/len weight (incl. the exact boundary MAX/len, the type's MAX, +inf), InsufficientNonZero when all weights are "
+            "zero, otherwise none of these — by abstract interpretation on homogeneous vectors of lengths 0/1/3/7 for every extracted weight "
+            "type. Not decided: exactness of the alias table, weights() reconstruction, sampling frequencies, zero-weight indices never "
+            "returned (numerical / data-structure invariants, not shape-of-code facts)."),
     "C09": ("rules_c09", "other",
             "Decided (structural clauses): an Err return of push/update is never preceded by a mutable reborrow of *self (CFG) and, on "
             "abstract cases, leaves the abstract tree equal to the input; every storage addition with .unwrap() is preceded by the same "
